@@ -1404,6 +1404,121 @@ def check_routes(case, rep):
                      f"(d*volume() = {float(d) * sum(ms):.9g}, {len(ms)} row(s))", dict(inp, route=name))
 
 
+# ---------------------------------------------------------------------------------------------
+# object histories: several evaluated copies / boundaries made from ONE parent; every one of them (the earlier ones too) and
+# the parent are used afterwards, and used a second time
+
+def make_history_case(ctx, idx):
+    rng = ctx.rng
+    dflt = rng.choice([None, None, "D"])
+    kind = rng.choice(["circle", "sphere", "interval", "par", "uservol", "cut", "translate"])
+
+    def circ(k="circle"):
+        n = 2 if k == "circle" else 3
+        return Node(k, "x" if k == "circle" else "z", [PF([c(dy(rng, -1, 1)) for _ in range(n)]), PF([two_param(rng, dy(rng, 0.5, 2))], defaulted=dflt)])
+    if kind in ("circle", "sphere"):
+        node = circ(kind)
+    elif kind == "interval":
+        lb = dy(rng, -2, 1)
+        node = Node("interval", "y", [PF([c(lb)]), PF([two_param(rng, lb + dy(rng, 0.5, 2))], defaulted=dflt)])
+    elif kind == "par":
+        o = [dy(rng, -2, 2), dy(rng, -2, 2)]
+        node = Node(rng.choice(["par", "tri"]), "x", [PF([c(o[0]), c(o[1])]), PF([("+", c(o[0]), two_param(rng, dy(rng, 1, 3))), c(o[1])], defaulted=dflt),
+                                                       PF([c(o[0]), c(o[1] + dy(rng, 1, 3))])])
+    elif kind == "uservol":
+        node = Node("uservol", None, [PF([two_param(rng, dy(rng, 1, 4))], defaulted=dflt)], [circ()])
+    elif kind == "cut":
+        a = circ()
+        node = Node("cut", None, [], [a, inner_shape(rng, a)], dict(contained=True, really_contained=True))
+    else:
+        node = Node("translate", "x", [PF([two_param(rng, 0), c(dy(rng, -1, 1))])], [circ()])
+    if rng.random() < 0.25:
+        node = Node("bdry", None, [], [node])
+    first = "t" if dflt != "D" or rng.random() < 0.5 else "D"
+    if dflt == "D":
+        first = "D"        # binding all non-defaulted arguments evaluates at once with the declared default (C17), see make_default_case
+    other = "D" if first == "t" else "t"
+    val = lambda: str(Fr(rng.randint(0, 16), 16))   # noqa
+    steps = [dict(op="eval", src=-1, sigma={first: [val()]}) for _ in range(rng.choice([2, 3, 4]))]
+    if dflt is None and rng.random() < 0.5:
+        steps.insert(rng.randrange(len(steps)), dict(op="eval", src=-1, sigma={other: [val()]}))
+    n1 = len(steps)
+    for i in range(n1):
+        if rng.random() < 0.6:
+            free = [p for p in ("t", "D") if p not in steps[i]["sigma"]]
+            steps.append(dict(op="eval", src=i, sigma={free[0]: [val()]}))        # second stage: I(t=1) then (D=2)
+    rows = [{p: [val()] for p in ("t", "D")} for _ in range(rng.choice([1, 2]))]
+    return dict(id=idx, mode="history", dom=node.describe(), params=["t", "D"], steps=steps, envs=rows,
+                density=str(rng.choice([Fr(15, 4), Fr(10), Fr(51, 2)])))
+
+
+def check_history(case, rep):
+    tp = common.use_repo()
+    import torch
+    node = geomgen.from_json(case["dom"])
+    inp = dict(mode="history", dom=case["dom"], expression=vtokens(node), params=case["params"], steps=case["steps"], envs=case["envs"],
+               density=case["density"])
+    rep.count("history:" + leaf_of(node)[0].kind + ":%d-objects" % (len(case["steps"]) + 1))
+    try:
+        parent = vto_tp(node, tp)
+    except Exception:  # noqa
+        rep.count("construction-raised")
+        return
+    objs, sig = [], []
+    with warnings.catch_warnings():
+        warnings.simplefilter("ignore")
+        for st in case["steps"]:
+            src = parent if st["src"] < 0 else objs[st["src"]]
+            base = {} if st["src"] < 0 else sig[st["src"]]
+            try:
+                objs.append(None if src is None else src(**{p: torch.tensor([[float(Fr(v[0]))]]) for p, v in st["sigma"].items()}))
+            except Exception:  # noqa
+                rep.count("history:eval-raised")        # partial evaluation itself is C17
+                objs.append(None)
+            sig.append({**base, **st["sigma"]})
+    d = float(Fr(case["density"]))
+    torch.manual_seed(case["id"])
+
+    def use(obj, bound, label, second):
+        rest = [p for p in case["params"] if p not in bound]
+        pr = mk_params(tp, rest, case["envs"]) if rest else tp.spaces.Points.empty()
+        v, _, err = impl_volume(obj, pr)
+        if err:
+            rep.count("history:volume-raised")
+            return
+        vals = v.reshape(-1).tolist()
+        for i, e in enumerate(case["envs"] if rest else case["envs"][:1]):
+            full = dict(fenv(e))
+            full.update(fenv(bound))
+            got = vals[i] if len(vals) > 1 else vals[0]
+            true = measure(node, full)
+            if not close(got, true):
+                rep.fail(f"{label}{' (second use)' if second else ''}: volume() = {got:.7g}, but the measure of the domain at "
+                         f"{ {p: str(x[0]) for p, x in full.items()} } is {true:.7g} — after {len(objs)} evaluations of the same parent", inp)
+                return
+        if not rest and leaf_of(node)[0].kind in ("circle", "sphere", "interval", "par") and node.kind != "cut":
+            full = dict(fenv(case["envs"][0]))
+            full.update(fenv(bound))
+            m = measure(node, full)
+            want = int_candidates(d * m)
+            with warnings.catch_warnings():
+                warnings.simplefilter("ignore")
+                try:
+                    got = len(common.call_with_timeout(5, obj.sample_random_uniform, d=d))
+                except Exception:  # noqa
+                    rep.count("history:sampling-raised")
+                    return
+            if got not in want:
+                rep.fail(f"{label}: density sampling (d = {d}) returned {got} points; ceil(d*measure) = {sorted(want)} — after {len(objs)} "
+                         f"evaluations of the same parent", inp)
+    # the EARLIER copies first, then the later ones, then the parent; then everything once more
+    for second in (False, True):
+        for i, (o, b) in enumerate(zip(objs, sig)):
+            if o is not None:
+                use(o, b, f"copy #{i} = parent{'' if case['steps'][i]['src'] < 0 else '(…)'}(**{ {p: x[0] for p, x in b.items()} })", second)
+        use(parent, {}, "the parent itself", second)
+
+
 def fixed_cases():
     """regression inputs of the defects repaired in /repo (they run first, in every tier)"""
     def P(kind, var, *vecs):
@@ -1468,6 +1583,13 @@ def run(ctx, rep, cases=None):
             rep.case(dict(dom=cs["dom"], d=cs["density"], envs=cs["envs"]), True,
                      sample=dict(expression=vtokens(geomgen.from_json(cs["dom"])), density=cs["density"], object=cs["obj"],
                                  verdict="ok" if nf == len(rep.failures) else "fails"), kind=cs["mode"])
+        for i in range(ctx.scale(80, 800)):
+            cs = make_history_case(ctx, 700000 + i)
+            nf = len(rep.failures)
+            check_history(cs, rep)
+            rep.case(dict(dom=cs["dom"], steps=cs["steps"], envs=cs["envs"]), True,
+                     sample=dict(expression=vtokens(geomgen.from_json(cs["dom"])), steps=cs["steps"],
+                                 verdict="ok" if nf == len(rep.failures) else "fails"), kind="history")
         for i in range(ctx.scale(90, 900)):
             cs = make_bool_case(ctx, 500000 + i)
             nf = len(rep.failures)
@@ -1484,6 +1606,9 @@ def replay(ctx, obj):
     inp = (obj.get("failing_input") or obj.get("first"))["input"]
     if str(inp.get("mode", "")).startswith(("uservol-density", "count-plane")):
         check_routes(dict(inp, id=0), rep)
+        return common.finish(ctx, rep, lean)
+    if inp.get("mode") == "history":
+        check_history(dict(inp, id=0), rep)
         return common.finish(ctx, rep, lean)
     if inp.get("mode") == "bool-density":
         check_bool_density(dict(inp, id=0), rep)
